@@ -250,3 +250,31 @@ def C19_joint_imp_particle_order(case, params):
     if not hit:
         return False
     return rt.c19_check(dict(c, text="\n".join(out)), prog) is None
+
+
+def C19_rotation_short_on_full_form(case, params):
+    import rt
+    import findings_rt as FR
+    return FR.rotation_short_on_full_form(case, rt.c19_check)
+
+
+def C19_operator_switched_back(case, params):
+    """F-C19-operator-switched-back: a cell's top-level geometry operator is set to INTERSECTION and later (back) to
+    UNION; with a write or str() between the two assignments the colon lands at another place of the padding
+    ('-1: 2' / '-1 :2') or parentheses written for the intersection stay.  Feature: for one cell a geometry_operator
+    edit 'intersection' followed later by 'union'.  Ablation: without the geometry_operator edits of these cells."""
+    import rt
+    if case.get("kind") != "observation-changed-output":
+        return False
+    prog = case.get("prog", [])
+    seen, cells = set(), set()
+    for e in prog:
+        if e.get("kind") == "geometry_operator":
+            if e["value"] == "intersection":
+                seen.add(e["orig"])
+            elif e["orig"] in seen:
+                cells.add(e["orig"])
+    if not cells:
+        return False
+    return rt.c19_check(case["case"], [e for e in prog if not (e.get("kind") == "geometry_operator"
+                                                                and e["orig"] in cells)]) is None
